@@ -393,12 +393,14 @@ fn search_idl(seed: u64, budget: usize) -> Option<Value> {
 // ---------------------------------------------------------------------------------------------
 // C02 / C17 outbound: histories of enqueue/send/flush against the write log of the transport
 #[derive(Debug)]
-struct BadKey;
+struct BadKey(usize);
 impl Serialize for BadKey {
     fn serialize<S: serde::Serializer>(&self, s: S) -> Result<S::Ok, S::Error> {
         use serde::ser::SerializeMap;
-        let mut m = s.serialize_map(Some(2))?;
+        let mut m = s.serialize_map(Some(3))?;
         m.serialize_entry("error", "a.Bad")?;
+        // a refused message may already have written any amount of its document into the spare buffer space
+        m.serialize_entry("pad", &"y".repeat(self.0))?;
         m.serialize_entry(&true, &1)?; // bool key: refused by zlink's serializer
         m.end()
     }
@@ -419,7 +421,7 @@ fn run_send(ops: &[(u8, usize)]) -> (Vec<String>, Vec<String>) {
             2 => { let r = Reply::new(Some(M::S { s: payload })).set_continues(Some(true)); if block_on(conn.send_reply(&r), 10).is_ok() { pending.extend(frame(serde_json::to_vec(&r).unwrap())); expected.push(std::mem::take(&mut pending)); } }
             3 => { let e = E::Bad { code: *size as u32 }; if block_on(conn.send_error(&e), 10).is_ok() { pending.extend(frame(serde_json::to_vec(&e).unwrap())); expected.push(std::mem::take(&mut pending)); } }
             4 => { let _ = block_on(conn.flush(), 10); if !pending.is_empty() { expected.push(std::mem::take(&mut pending)); } }
-            _ => { let r = block_on(conn.send_error(&BadKey), 10); if r.is_ok() { expected.push(b"<refused message was accepted>".to_vec()); } }
+            _ => { let r = block_on(conn.send_error(&BadKey(*size)), 10); if r.is_ok() { expected.push(b"<refused message was accepted>".to_vec()); } }
         }
     }
     let _ = block_on(conn.flush(), 10);
@@ -535,14 +537,75 @@ fn run_fair(counts: &[usize], cuts: &[usize]) -> Option<String> {
     if order.len() != counts.iter().sum::<usize>() { return Some(format!("served {} of {} calls: {order:?}", order.len(), counts.iter().sum::<usize>())); }
     None
 }
+/// C18 across transitions: connection c sends `counts[c]` calls in one burst; `kind[c]`: 0 = stays open, 1 = closes after its
+/// burst (EOF: the list is reordered by swap_remove), 2 = its first call is a streaming call of 2 items (parked, then pushed
+/// back at the end of the list).  The property bounds starvation by connections x (transitions + 1): the j-th call of ANY
+/// connection (all calls are available from the start) must be among the first (j + 1) * n * (T + 1) calls served,
+/// T = number of connections of kind 1 or 2.  A loose necessary condition; the flooders' bursts are longer than the bound.
+fn run_fair_transitions(counts: &[usize], kind: &[u8], cuts: &[usize], strict: bool) -> Option<String> {
+    SERVED.with(|s| s.borrow_mut().clear());
+    let wires: Vec<Vec<u8>> = counts.iter().enumerate().map(|(c, n)| {
+        let mut w = Vec::new();
+        if kind[c] == 2 { w.extend_from_slice(br#"{"method":"a.T","parameters":{"n":2},"more":true}"#); w.push(0); }
+        for k in 0..*n { w.extend_from_slice(format!(r#"{{"method":"a.B","parameters":{{"a":{}}}}}"#, 100 * c + k).as_bytes()); w.push(0); }
+        w
+    }).collect();
+    let socks: Vec<ScriptedSocket> = wires.iter().enumerate().map(|(c, w)| { let s = ScriptedSocket::new(w, cuts); s.0.borrow_mut().hold_open = kind[c] != 1; s }).collect();
+    let scripts: Vec<_> = socks.iter().map(|s| s.0.clone()).collect();
+    let mut conns = socks;
+    conns.reverse();
+    let server = zlink_core::Server::new(ScriptedListener { conns }, Svc);
+    let mut fut = Box::pin(server.run());
+    for _ in 0..20_000 {
+        if let Poll::Ready(_) = poll_once(fut.as_mut()) { break; }
+        if scripts.iter().all(|s| { let s = s.borrow(); s.consumed == s.wire.len() }) {
+            let before: usize = scripts.iter().map(|s| s.borrow().log.len()).sum();
+            for _ in 0..8 { let _ = poll_once(fut.as_mut()); }
+            let after: usize = scripts.iter().map(|s| s.borrow().log.len()).sum();
+            if before == after { break; }
+        }
+    }
+    let order: Vec<u32> = SERVED.with(|s| s.borrow().clone());
+    let n = counts.len();
+    let t = kind.iter().filter(|k| **k != 0).count();
+    let total: usize = counts.iter().sum();
+    if order.len() != total { return Some(format!("served {} of {} calls: {order:?}", order.len(), total)); }
+    for (pos, a) in order.iter().enumerate() {
+        let (c, j) = ((*a / 100) as usize, (*a % 100) as usize);
+        let bound = (j + 1) * n * (t + 1);
+        // KNOWN FINDING (known_findings.txt, C18 stream-starved-by-calls): the calls a client pipelined behind its own streaming
+        // call wait until the stream ends, and select_biased! polls the call arm before the stream arm, so while other
+        // connections have calls buffered no stream item is delivered.  Not re-reported by the search (strict = false);
+        // `replay` of the finding's witness uses strict = true.
+        if !strict && kind[c] == 2 { continue; }
+        if pos >= bound && pos + 1 < total {
+            // only a violation if somebody else was served in its place although it was waiting: always the case here
+            return Some(format!("call {j} of connection {c} was served at position {pos}, beyond the bound (j+1)*n*(T+1) = {bound} (n = {n}, T = {t}); order (100*conn+seq) = {order:?}"));
+        }
+    }
+    None
+}
 fn search_fair(seed: u64, budget: usize) -> Option<Value> {
     let mut rng = Rng(seed.wrapping_mul(0x9E3779B97F4A7C15) | 1);
-    for _ in 0..budget {
+    for it in 0..budget {
         let n = 2 + rng.below(4);
         let counts: Vec<usize> = (0..n).map(|_| 1 + rng.below(5)).collect();
         let cuts: Vec<usize> = match rng.below(3) { 0 => vec![], 1 => vec![4096], _ => vec![30 + rng.below(200)] };
         if let Some(why) = run_fair(&counts, &cuts) {
             return Some(json!({"kind":"fair","counts":counts,"cuts":cuts,"why":why}));
+        }
+        if it % 4 == 0 {
+            // transitions: one or two connections close / stream early, two flood with bursts longer than the bound, the rest have few calls
+            let n = 3 + rng.below(3);
+            let mut kind = vec![0u8; n];
+            kind[rng.below(n)] = 1 + rng.below(2) as u8;
+            if rng.below(2) == 0 { kind[rng.below(n)] = 1 + rng.below(2) as u8; }
+            let t = kind.iter().filter(|k| **k != 0).count();
+            let long = n * (t + 1) + 4;
+            let counts: Vec<usize> = (0..n).map(|c| if kind[c] != 0 { 1 + rng.below(2) } else if rng.below(3) == 0 { 1 } else { (long + rng.below(6)).min(90) }).collect();
+            if let Some(why) = run_fair_transitions(&counts, &kind, &[4096], false) {
+                return Some(json!({"kind":"fair_transitions","counts":counts,"conn_kind":kind,"cuts":[4096],"why":why}));
+            }
         }
     }
     None
@@ -770,6 +833,17 @@ fn main() {
             let cuts: Vec<usize> = w["cuts"].as_array().unwrap().iter().map(|x| x.as_u64().unwrap() as usize).collect();
             println!("calls per connection (all available from the start) = {counts:?}, read chunking = {cuts:?}");
             match run_fair(&counts, &cuts) {
+                Some(why) => { println!("{why}\nREPLAY: FAILS on the real code"); std::process::exit(1); }
+                None => println!("REPLAY: passes on the real code"),
+            }
+        }
+        Some("fair_transitions") | Some("stream_starved") => {
+            let counts: Vec<usize> = w["counts"].as_array().unwrap().iter().map(|x| x.as_u64().unwrap() as usize).collect();
+            let kind: Vec<u8> = w["conn_kind"].as_array().unwrap().iter().map(|x| x.as_u64().unwrap() as u8).collect();
+            let cuts: Vec<usize> = w["cuts"].as_array().unwrap().iter().map(|x| x.as_u64().unwrap() as usize).collect();
+            println!("calls per connection (all available from the start) = {counts:?}, connection kinds (0 stays, 1 closes after its burst, 2 starts with a 2-item stream) = {kind:?}");
+            let strict = w["kind"].as_str() == Some("stream_starved");
+            match run_fair_transitions(&counts, &kind, &cuts, strict) {
                 Some(why) => { println!("{why}\nREPLAY: FAILS on the real code"); std::process::exit(1); }
                 None => println!("REPLAY: passes on the real code"),
             }
